@@ -1,4 +1,19 @@
-"""Table of checks: which harnesses/configs/modes decide which property."""
+"""Table of checks: which harnesses/configs/modes decide which property.
+
+One file per property under lib/checkdefs/<ID>.py defining CHECK (dict) and
+optionally LEVEL (dict with text/note/technique/design_ref for MANIFEST.json).
+
+CHECK keys:
+  level        EVIDENCE level category
+  rule         how cases are generated and what makes one distinct/non-trivial
+  assumptions  list of strings
+  runs         list of {harness, sources, configs: {quick: [...], thorough: [...]},
+                        mode (optional), cflags (optional), workers (optional),
+                        watchdog: {quick: s, thorough: s} (optional)}
+  evidence     optional callable(results, tier) -> dict merged into coverage
+  pipeline     'clients' for the C18 build-pipeline check
+"""
+import importlib, os, pkgutil
 
 def both(q, t=None):
     return {'quick': q, 'thorough': t if t is not None else q}
@@ -6,23 +21,13 @@ def both(q, t=None):
 EX = ['rt/explore.c']
 
 CHECKS = {}
-
-CHECKS['C13'] = {
-    'level': 'exploration',
-    'rule': ('closure generator: every operation of the slist alphabet (push_front/push_back/insert_after/'
-             'erase_after/pop_front incl. empty/reverse/sort/concat/swap/foreach/clear) applied in every reachable '
-             'state of 1-3 lists over a small element pool, plus seeded random histories where every op is followed '
-             'by a push_back probe with probability 1/2; after every call the lists are audited against a reference '
-             'sequence (size, front, back, traversal, link walk, tail = last). A case is distinct by the signature '
-             '(per-list key sequences) and non-trivial when >= 2 elements are linked.'),
-    'assumptions': ['erase_after is only called with a predecessor that has a successor; concat/swap only between distinct lists of equal offset',
-                    'gcc 12 ASan/UBSan runtimes; harness reference model (arrays of element pointers)',
-                    'dbg-asan keeps the library asserts live; rel-asan is the NDEBUG build as shipped'],
-    'runs': [
-        {'harness': 'slist', 'sources': ['harness/slist.c'] + EX, 'configs': both(['dbg-asan', 'rel-asan'])},
-    ],
-}
-
-# per-property wording for MANIFEST.level_claimed (falls back to the rule)
 LEVEL_TEXT = {}
 NOT_APPLICABLE = {}
+
+_d = os.path.join(os.path.dirname(os.path.abspath(__file__)), 'checkdefs')
+for _f in sorted(os.listdir(_d)):
+    if _f.endswith('.py') and _f[0] == 'C':
+        _m = importlib.import_module('checkdefs.' + _f[:-3])
+        CHECKS[_f[:-3]] = _m.CHECK
+        if hasattr(_m, 'LEVEL'):
+            LEVEL_TEXT[_f[:-3]] = _m.LEVEL
